@@ -95,6 +95,35 @@ Definition modelled_sites_match (sites : list logsite) : bool :=
   && list_eqb site_eqb (sites_of "server.py" "Server.write_line" sites) [server_site_reply]
   && list_eqb site_eqb (sites_of "client.py" "BaseClient.parse_line" sites) [client_site_reply].
 
+(* the structural facts around PASS that the model and the whitelist rely on *)
+Definition password_use_ok (u : string * string) : bool :=
+  (String.eqb (fst u) "login" && String.prefix "concat:" (snd u))
+  || (String.eqb (fst u) "context" && String.eqb (snd u) "arg:client.login").
+
+Definition check_pass_facts
+    (translator_ok : bool) (censor : list text) (guard_count : Z)
+    (called_default returns_lowered replies_literal : bool)
+    (sinks deco_sinks disp_sinks : list string) (verb_var rest_var : string)
+    (unknown_names : list string)
+    (prefix : text) (k : Z) (forwards : bool)
+    (pw_uses raises : list (string * string)) : bool :=
+  translator_ok
+  && text_in VERB_PASS censor                         (* "pass" is in parse_command's censor tuple *)
+  && (guard_count =? 1)%Z                             (* ... and the log is guarded by exactly that test *)
+  && called_default                                   (* nobody overrides censor_commands *)
+  && returns_lowered                                  (* the dispatcher looks up cmd.lower(): same key as the censor test *)
+  && replies_literal                                  (* every reply of the PASS handler is a pair of literals *)
+  && strs_subset sinks ["self.user_manager.authenticate"]   (* rest of PASS only goes to authenticate *)
+  && strs_subset deco_sinks ["f"]                     (* the decorator only passes rest through *)
+  && strs_subset disp_sinks ["f"]                     (* the dispatcher only hands rest to the handler *)
+  && strs_subset unknown_names [verb_var]             (* the 502 text mentions the verb only *)
+  && negb (String.eqb verb_var rest_var)
+  && text_eqb (lower prefix) (VERB_PASS ++ [SP])%list   (* login sends "<PASS spelling> " + password *)
+  && (k =? Z.of_nat (List.length prefix))%Z           (* ... censored from exactly the end of that prefix *)
+  && forwards
+  && forallb password_use_ok pw_uses                  (* no other use of `password` in client.py *)
+  && match raises with [] => true | _ => false end.   (* no exception is built from a password-bearing local *)
+
 Close Scope string_scope.
 
 (* ------------------------------------------------------------------ soundness: what a source denotes *)
